@@ -955,6 +955,25 @@ def usvg_oracle(ctx, rng, quick, binp, ub, wd):
     for m_, (mode_, res_) in enumerate([(0, None), (0, rdb), (0, rda), (1, rdb), (1, None), (2, rdb)]):
         jobs.append(dict(path=rdoc, argv=(['--resources-dir', res_] if res_ else []), lopts=('res=' + res_ if res_ else '-'), wopts='-',
                          mode=mode_, idx=7000 + m_, res_explicit=res_, stdin_no_res=(mode_ == 1 and res_ is None)))
+    # --languages (round 5, missed seed C20-16): <switch>/systemLanguage in mixed case x language lists in mixed case, with
+    # duplicates and blanks after commas.  Expected library option: the comma-separated items as written, blanks around an item removed.
+    ldocs = []
+    for k_, tags in enumerate([('en-US', 'de-DE', 'EN'), ('pt-BR', 'zh-Hant', 'ru-RU, en-GB'), ('en', 'EN-us', 'De')]):
+        body = '<switch>' + ''.join('<rect id="l%d" systemLanguage="%s" x="%d" width="10" height="10" fill="#%02x3050"/>' % (i_, t_, 12 * i_, 40 * i_ + 20)
+                                    for i_, t_ in enumerate(tags)) + '<rect id="fallback" y="20" width="10" height="10"/></switch>'
+        pth = os.path.join(wd, 'u-lang-%d.svg' % k_)
+        with open(pth, 'w') as f:
+            f.write('<svg %s width="60" height="40">%s</svg>' % (NS, body))
+        ldocs.append(pth)
+    lsets = ['en-US', 'EN-us', 'de-DE,de-DE', 'pt-BR, en', 'zh-Hant', 'ru-RU,  EN', 'De, en-GB,De', 'xx, en']
+    li = 0
+    for pth in ldocs:
+        for ls in lsets:
+            want = ','.join(x.strip() for x in ls.split(','))
+            for mode_ in ((0, 1, 2) if not quick else (li % 3,)):
+                jobs.append(dict(path=pth, argv=['--languages', ls], lopts='lang=' + want, wopts='-', mode=mode_, idx=8000 + li,
+                                 prefill=(li % 4 == 0)))
+                li += 1
     # failure behaviour
     for j, (data, what) in enumerate(MALFORMED):
         p = os.path.join(wd, 'u-bad-%d.svg' % j)
